@@ -118,6 +118,7 @@ type Frame struct {
 }
 
 type Exec struct {
+	declNames  map[*ssa.Function]map[string]bool
 	panicMode  bool // deferred calls are being run because of a panic
 	didRecover bool // recover() was evaluated in panic mode
 	escaped    []*State // states in which the function under verification lets a panic escape (contract says maypanic)
